@@ -14,9 +14,19 @@ Correspondence stream `c13` (three request kinds, one engine):
   (and through a formula), evaluated at exactly representable probe points and compared EXACTLY with the
   model's `exactAt`; plus random dyadic probes compared with the named real function computed with `math`.
 
+* route `ref` (scale and poly requests) — the same transforms with the state kept by the LIBRARY (the harness passes
+  no `_state`): the call is written with every spelling of the callee (preloaded name, alias, module / package /
+  namespace / class attribute, nested attribute, dict or list item, result of a call), at top level of the factor or
+  inside another call / a quoted python fragment / arithmetic, and evaluated through `model_matrix` +
+  `ModelSpec.get_model_matrix`, `Formula.get_model_matrix`, `model_matrix(spec, data)` with the names captured from
+  the calling frame, or `stateful_eval` with a shared state mapping — fitted on one vector, replayed on 1..2
+  follow-up vectors.  The recorded state and every output are compared with the model run on the same history.
+
 Oracle (implementation alone): mean≈0 / std≈1 on the fitting data, follow-up data transformed with the
 recorded statistics (manual formula), poly columns orthonormal, orthogonal to 1, same span as raw powers,
-NaN rows propagate row-wise, exp/log pairs inverse, exp10(x) = 10**x.
+NaN rows propagate row-wise, exp/log pairs inverse, exp10(x) = 10**x.  Where the library keeps the state
+(routes `formula`, `ref`) the follow-up outputs are additionally checked against the affine map / the polynomials
+recovered from the fitting output alone, so a transform that is silently re-fitted is pinned whatever was recorded.
 """
 from __future__ import annotations
 
@@ -55,6 +65,10 @@ TRUSTED = [
     "(zero variance, ddof = n, fewer distinct values than degree + 1)",
     "the stateful_transform wrapper (dict-valued data, singledispatch on sparse input) is not modelled; "
     "the dict insertion order of poly's alpha/norms2 memo is not modelled",
+    "stateful_eval's AST rewriting (which call nodes are given `_state`, the key they are recorded under) is not "
+    "modelled: the model is the transform with an explicit state; the route `ref` observes on every run that, for each "
+    "spelling of the callee / position / entry point generated, the library-kept state and the follow-up outputs equal "
+    "those of the model run with the state threaded explicitly",
 ]
 ASSUMPTIONS = [
     "scale_unit_std: ddof < n and the data are not constant (variance != 0)",
@@ -67,7 +81,14 @@ RULE = (
     "all data times 2^e, e in -60..60, every comparison relative to the data magnitude) x 0..2 "
     "follow-up calls with other data AND other arguments (must be ignored), optional pre-seeded _state, route "
     "direct or through model_matrix/model_spec; poly: degree 0..6 x raw x NaN rows x follow-ups (same, lower and "
-    "too-high degree) incl. vectors with too few distinct values; elem: every name of the model table x storage type "
+    "too-high degree) incl. vectors with too few distinct values; ref (state kept by the library): transform in "
+    "{scale, center, standardize, poly} x callee spelling in {preloaded name, alias name, module attribute, dotted package "
+    "path, namespace attribute, nested attribute, class attribute, dict item, list item, call result} x position in "
+    "{the factor itself, I(.), {.}, {1 * .}} x entry in {model_matrix + spec.get_model_matrix(context=dict), "
+    "Formula.get_model_matrix + spec.get_model_matrix, model_matrix(formula)/model_matrix(spec) with names captured from "
+    "the caller's frame, stateful_eval with one shared state mapping} x output pandas/numpy x written arguments "
+    "(center/scale flag or number, ddof in {0,1,2,1/2,n}; degree 1..5, raw) x fitting vector (as above, 30% scaled by 2^e) "
+    "x 1..2 follow-up vectors; elem: every name of the model table x storage type "
     "float64/int64/int32 x every probe index the type can hold (exp10: 10^k for k = -5..30 incl. negative and >= 19), "
     "direct call and model_matrix on a column of that dtype, plus random dyadic and random integer-typed probes; non-trivial = fitting happens on a non-constant vector / degree >= 2 / "
     "a probe with k != 0; distinct by canonical JSON"
@@ -248,6 +269,100 @@ def gen_poly(rng):
     return dict(kind="poly", calls=calls)
 
 
+# --- how the stateful transform is REFERRED TO in the expression (the callee of the call node), where the call
+# --- sits in the factor, and through which entry point the expression is evaluated.  The property quantifies over
+# --- "all follow-up vectors" for scale/center/poly; it makes no exception for the spelling of the callee.
+STATEFUL = ["scale", "center", "standardize", "poly"]
+REF_FORMS = ["bare", "alias", "module", "dotted", "namespace", "nested", "klass", "subscript", "index", "call"]
+REF_POSITIONS = ["top", "I", "braces", "mul1"]
+REF_ENTRIES = ["mm_spec", "mm_spec", "formula_obj", "sugar_frame", "stateful_eval"]
+
+
+def ref_callee(form, fn):
+    """the text of the callee for transform `fn` in reference form `form` (names are bound by `_ref_context`)"""
+    mod, dotted = ("PC", "formulaic.transforms.patsy_compat") if fn == "standardize" else ("T", "formulaic.transforms")
+    return {
+        "bare": fn,  # the preloaded name
+        "alias": f"my_{fn}",  # another plain name bound to the same callable in the context
+        "module": f"{mod}.{fn}",  # attribute of a module object in the context
+        "dotted": f"{dotted}.{fn}",  # attribute chain starting at the package
+        "namespace": f"ns.{fn}",  # attribute of a plain namespace object
+        "nested": f"ns.t.{fn}",  # attribute of an attribute
+        "klass": f"H.{fn}",  # static attribute of a class
+        "subscript": f"D['{fn}']",  # item of a dict
+        "index": f"L[{STATEFUL.index(fn)}]",  # item of a list
+        "call": f"get('{fn}')",  # result of a call
+    }[form]
+
+
+def _lit(a):
+    """python literal for a flag / exact number"""
+    return repr(a) if isinstance(a, bool) else repr(_num(a))
+
+
+def ref_inner(c):
+    """the call expression itself, e.g. `T.scale(x, center=False, ddof=0)` (also the key the state is recorded under)"""
+    c0 = c["calls"][0]
+    if c["kind"] == "poly":
+        callee = ref_callee(c["form"], "poly")
+        return f"{callee}(x, {c0['degree']}, raw=True)" if c0["raw"] else f"{callee}(x, {c0['degree']})"
+    callee = ref_callee(c["form"], c0["fn"])
+    args = ""
+    if "center" in c0:
+        args += f", center={_lit(c0['center'])}"
+    if "scale" in c0:
+        args += f", {'rescale' if c0['fn'] == 'standardize' else 'scale'}={_lit(c0['scale'])}"
+    if "ddof" in c0:
+        args += f", ddof={_lit(c0['ddof'])}"
+    return f"{callee}(x{args})"
+
+
+def ref_expr(c, python=False):
+    """the factor: the call at top level, inside another call, inside a quoted python fragment, inside arithmetic
+    (all of them the identity on the values, so the observable is the transform's own output)"""
+    inner = ref_inner(c)
+    if c["pos"] == "top":
+        return inner
+    if c["pos"] == "I":
+        return f"I({inner})"
+    if c["pos"] == "braces":
+        return f"({inner})" if python else "{" + inner + "}"
+    return f"1 * {inner}" if python else "{1 * " + inner + "}"
+
+
+def gen_ref(rng):
+    fn = rng.choice(["scale", "scale", "scale", "center", "standardize", "poly", "poly"])
+    where = dict(route="ref", form=rng.choice(REF_FORMS), pos=rng.choice(REF_POSITIONS), entry=rng.choice(REF_ENTRIES),
+                 output=rng.choice(["pandas", "numpy"]))
+    nfollow = rng.choice([1, 1, 2])
+    if fn == "poly":
+        degree = rng.choice([1, 2, 2, 3, 3, 4, 5])
+        raw = rng.random() < 0.1
+
+        def vec():
+            return [v for v in rand_poly_vector(rng, degree=degree) if v is not None]
+
+        return dict(kind="poly", calls=[dict(x=vec(), degree=degree, raw=raw) for _ in range(1 + nfollow)], **where)
+    mag = rng.choice(MAG_EXPONENTS) if rng.random() < 0.3 else 0
+    first = rand_vector(rng, kind=rng.choice(["small", "big", "dyadic", "offset", "two", "const"] if rng.random() < 0.1
+                                             else ["small", "big", "dyadic", "offset"]))
+    args = {}
+    if fn != "center":  # the same written arguments are evaluated again on every follow-up data set
+        if rng.random() < 0.5:
+            args["center"] = rand_arg(rng)
+        if rng.random() < 0.5:
+            args["scale"] = rand_arg(rng)
+        if rng.random() < 0.5:
+            args["ddof"] = fr(rng.choice([0, 1, 1, 2, Fraction(1, 2), len(first)]))
+    calls = []
+    for i in range(1 + nfollow):
+        data = first if i == 0 else rand_vector(rng, kind=rng.choice(["small", "big", "dyadic"]))
+        if mag:
+            data = shift_mag(data, mag if (i == 0 or rng.random() < 0.7) else rng.choice(MAG_EXPONENTS + [0]))
+        calls.append(dict(fn=fn, data=data, **args))
+    return dict(kind="scale", state={}, calls=calls, mag=mag, **where)
+
+
 INT_RANGE = {"int64": (-(2 ** 63), 2 ** 63 - 1), "int32": (-(2 ** 31), 2 ** 31 - 1)}
 
 
@@ -301,6 +416,7 @@ def gen_elem_rand(rng):
 
 def cases(rng, tier):
     ns, npoly, nrand = {"quick": (220, 220, 120), "thorough": (3000, 3000, 1500), "search": (150, 150, 60)}[tier]
+    nref = {"quick": 240, "thorough": 3000, "search": 200}[tier]
     yield dict(kind="names")
     yield from gen_elem_exact()
     for _ in range(nrand):
@@ -309,11 +425,16 @@ def cases(rng, tier):
         yield gen_scale(rng)
     for _ in range(npoly):
         yield gen_poly(rng)
+    for _ in range(nref):
+        yield gen_ref(rng)
 
 
 def describe(c):
     if c["kind"] == "names":
         return "names"
+    if c.get("route") == "ref":
+        fn = "poly" if c["kind"] == "poly" else c["calls"][0]["fn"]
+        return f"ref:{fn}:{c['form']}:{c['pos']}:{c['entry']}"
     if c["kind"] == "scale":
         c0 = c["calls"][0]
         m = c.get("mag", 0)
@@ -359,10 +480,107 @@ def _scale_state_obs(st):
     return out
 
 
+def _ref_context():
+    """objects through which the four stateful transforms can be reached (the callables are the live TRANSFORMS
+    entries; nothing is wrapped)"""
+    import types
+
+    import formulaic
+    import formulaic.transforms as T
+    import formulaic.transforms.patsy_compat as PC
+    from formulaic.transforms import TRANSFORMS
+
+    fns = {k: TRANSFORMS[k] for k in STATEFUL}
+    ns = types.SimpleNamespace(t=types.SimpleNamespace(**fns), **fns)
+    H = type("H", (), {k: staticmethod(v) for k, v in fns.items()})
+    ctx = dict(T=T, PC=PC, formulaic=formulaic, ns=ns, H=H, D=dict(fns), L=[fns[k] for k in STATEFUL],
+               get=lambda k: fns[k])
+    ctx.update({f"my_{k}": v for k, v in fns.items()})
+    return ctx
+
+
+def _ref_sugar_frame(ctx, formula, frames, kw):
+    """`model_matrix(...)` with its default `context=0`: the names are local variables of the calling frame"""
+    from formulaic import model_matrix
+
+    T, PC, formulaic, ns, H, D, L, get = (ctx[k] for k in ("T", "PC", "formulaic", "ns", "H", "D", "L", "get"))  # noqa: F841
+    my_scale, my_center, my_standardize, my_poly = (ctx["my_" + k] for k in STATEFUL)  # noqa: F841
+    mm = model_matrix(formula, frames[0], **kw)
+    spec = mm.model_spec
+    yield mm, spec.transform_state
+    for d in frames[1:]:
+        yield model_matrix(spec, d), spec.transform_state
+
+
+def _ref_run(c, vectors):
+    """evaluate the case's expression on the fitting vector, then on every follow-up vector with the state the
+    LIBRARY recorded (the harness passes no `_state`); yields (values, transform-state mapping) per data set"""
+    ctx = _ref_context()
+    entry = c["entry"]
+    if entry == "stateful_eval":
+        from formulaic.transforms import TRANSFORMS
+        from formulaic.utils.stateful_transforms import stateful_eval
+
+        state = {}
+        for v in vectors:
+            env = {**TRANSFORMS, **ctx, "x": pandas.Series(v)}
+            yield stateful_eval(ref_expr(c, python=True), env, None, state, None), state
+        return
+    from formulaic import Formula, model_matrix
+
+    formula = "0 + " + ref_expr(c)
+    frames = [pandas.DataFrame({"x": v}) for v in vectors]
+    kw = dict(output=c["output"], na_action="ignore")
+    if entry == "sugar_frame":
+        yield from _ref_sugar_frame(ctx, formula, frames, kw)
+        return
+    if entry == "formula_obj":
+        mm = Formula(formula).get_model_matrix(frames[0], context=ctx, **kw)
+    else:
+        mm = model_matrix(formula, frames[0], context=ctx, **kw)
+    spec = mm.model_spec
+    yield mm, spec.transform_state
+    for d in frames[1:]:
+        yield spec.get_model_matrix(d, context=ctx), spec.transform_state
+
+
+def _ref_state(tstate, c):
+    """the state recorded for the call: under its own text; failing that the only entry there is"""
+    key = ref_inner(c)
+    if key in tstate:
+        return tstate[key]
+    if len(tstate) == 1:
+        return next(iter(tstate.values()))
+    return {}
+
+
+def impl_scale_ref(c):
+    res = []
+    with numpy.errstate(all="ignore"):
+        for vals, tstate in _ref_run(c, [[fl(v) for v in call["data"]] for call in c["calls"]]):
+            arr = numpy.asarray(vals, dtype=float)
+            obs = dict(out=[jf(v) for v in (arr[:, 0] if arr.ndim == 2 else arr)],
+                       state=_scale_state_obs(dict(_ref_state(tstate, c))))
+            if arr.ndim == 2 and arr.shape[1] != 1:
+                obs["ncols"] = arr.shape[1]
+            res.append(obs)
+    return dict(calls=res)
+
+
+def impl_poly_ref(c):
+    res = []
+    with numpy.errstate(all="ignore"):
+        for call, (vals, tstate) in zip(c["calls"], _ref_run(c, [[fl(v) for v in call["x"]] for call in c["calls"]])):
+            res.append(_poly_obs(vals, dict(_ref_state(tstate, c)), len(call["x"]), call["degree"]))
+    return dict(calls=res)
+
+
 def impl_scale(c):
     from formulaic.transforms import TRANSFORMS
 
     res = []
+    if c["route"] == "ref":
+        return impl_scale_ref(c)
     if c["route"] == "formula":
         from formulaic import model_matrix
 
@@ -445,6 +663,8 @@ def impl_poly(c):
 
     if c.get("route") == "formula":
         return impl_poly_formula(c)
+    if c.get("route") == "ref":
+        return impl_poly_ref(c)
     st = {}
     res = []
     for call in c["calls"]:
@@ -791,6 +1011,47 @@ def _arr(vals):
     return numpy.array([float(v) if not isinstance(v, str) else float(v) for v in vals], dtype=float)
 
 
+# routes on which the LIBRARY keeps the statistics between the data sets (the harness passes no `_state` of its own)
+LIBRARY_RECORDED = ("formula", "ref")
+
+
+def _same_affine_map(c, calls):
+    """`apply the recorded statistics unchanged to new data`, read off the outputs alone: whatever centre c and
+    scale s were fitted, the fitting vector was mapped by t -> (t - c) / s; the follow-up vectors must be mapped by
+    that same affine function.  It is recovered from the two extreme points of the fitting vector and its image, and
+    the comparison allows for the rounding of that recovery (condition number (max|x| + |c|) / spread)."""
+    fn = c["calls"][0]["fn"]
+    x0 = _arr([fl(v) for v in c["calls"][0]["data"]])
+    y0 = _arr(calls[0]["out"])
+    if y0.shape != x0.shape or not numpy.all(numpy.isfinite(y0)):
+        return None
+    lo, hi = int(numpy.argmin(x0)), int(numpy.argmax(x0))
+    spread = float(x0[hi] - x0[lo])
+    if spread <= 0:
+        return None  # a constant fitting vector does not determine the map
+    slope = float((y0[hi] - y0[lo]) / spread)
+    if slope == 0 or not math.isfinite(slope):
+        return None
+    icpt = float(y0[lo] - slope * x0[lo])
+    xmag = float(numpy.max(numpy.abs(x0)))
+    cond = (xmag + abs(icpt / slope)) / spread
+    if cond > 1e5:
+        return None  # the fitting output does not determine the map to a useful accuracy
+    for i in range(1, len(calls)):
+        if _has_nonfinite(calls[i]):
+            return f"{fn}: nan/inf on finite follow-up data although the fitting data gave a finite result"
+        y = _arr([fl(v) for v in c["calls"][i]["data"]])
+        got = _arr(calls[i]["out"])
+        want = slope * y + icpt
+        ymag = float(numpy.max(numpy.abs(y))) if y.size else 0.0
+        tol = 1e-9 * max(cond, 1.0) * abs(slope) * (ymag + xmag + abs(icpt / slope))
+        if got.shape != want.shape or float(numpy.max(numpy.abs(got - want), initial=0.0)) > tol:
+            return (f"{fn}: follow-up data were not transformed with the statistics fitted on the first data set "
+                    f"(the map t -> {slope!r} * t + {icpt!r} that was applied to the fitting vector): "
+                    f"got {got.tolist()[:4]}, want {want.tolist()[:4]}")
+    return None
+
+
 def oracle_scale(c, o):
     calls = o.get("calls", [])
     if not calls:
@@ -825,6 +1086,10 @@ def oracle_scale(c, o):
     # recorded statistics applied unchanged to every later vector, whatever arguments are passed
     if _has_nonfinite(a0):
         return None
+    if c["route"] in LIBRARY_RECORDED:
+        why = _same_affine_map(c, calls)
+        if why:
+            return why
     st0 = a0["state"]
     for i in range(1, len(calls)):
         a = calls[i]
@@ -842,6 +1107,50 @@ def oracle_scale(c, o):
         ref = float(numpy.max(numpy.abs(want))) if want.size else 0.0
         if got.shape != want.shape or not numpy.allclose(got, want, rtol=1e-12, atol=1e-12 * ref):
             return f"{fn}: follow-up vector not transformed with the recorded statistics {st0}: got {got.tolist()[:4]}, want {want.tolist()[:4]}"
+    return None
+
+
+def _same_polynomials(c, calls, d, x, Q):
+    """`apply the recorded statistics unchanged to new data`, read off the outputs alone: every column of the fitting
+    output is a polynomial of degree <= d in the fitting vector (it lies in the span of the raw powers); the follow-up
+    vectors must be mapped by those same polynomials.  Each is recovered by least squares in the affinely rescaled
+    variable, with the lowest degree that reproduces the column (so that no rounding dust sits on higher powers when
+    the follow-up data lie far outside the fitted range); the comparison is relative to the size of the terms."""
+    m = float(x.mean())
+    sc = float(numpy.abs(x - m).max()) or 1.0
+    t0 = (x - m) / sc
+    coefs = []
+    for j in range(d):
+        found = None
+        for k in range(1, d + 1):
+            V0 = numpy.vander(t0, k + 1, increasing=True)
+            cf, _, rank, sv = numpy.linalg.lstsq(V0, Q[:, j], rcond=None)
+            if rank < k + 1 or sv[-1] < 1e-6 * sv[0]:
+                break
+            if numpy.abs(V0 @ cf - Q[:, j]).max() <= 1e-10 * max(1.0, float(numpy.abs(Q[:, j]).max())):
+                found = cf
+                break
+        if found is None:
+            return None  # the fitting output does not determine the polynomial to a useful accuracy (span check reports the rest)
+        coefs.append(found)
+    for i in range(1, len(calls)):
+        a, ci = calls[i], c["calls"][i]
+        if "error" in a or ci["degree"] != d or ci["raw"] or any(v is None for v in ci["x"]):
+            continue
+        cols = a.get("cols")
+        if cols == "bad-shape" or len(cols) != d or any(len(col) != len(ci["x"]) for col in cols):
+            return "poly: follow-up output has the wrong shape"
+        ty = (_arr([fl(v) for v in ci["x"]]) - m) / sc
+        for j in range(d):
+            if any(isinstance(v, str) for v in cols[j]):
+                return f"poly: nan/inf in follow-up column {j} although the follow-up vector has no missing value"
+            got = _arr(cols[j])
+            V = numpy.vander(ty, len(coefs[j]), increasing=True)
+            want = V @ coefs[j]
+            size = numpy.abs(V) @ numpy.abs(coefs[j])
+            if got.shape != want.shape or numpy.any(numpy.abs(got - want) > 1e-7 * size + 1e-9):
+                return (f"poly: follow-up column {j} is not the polynomial fitted on the first data set evaluated at "
+                        f"the new data: got {got.tolist()[:4]}, want {want.tolist()[:4]}")
     return None
 
 
@@ -901,6 +1210,10 @@ def oracle_poly(c, o):
     st0 = a0["state"]
     if any(isinstance(v, str) for key in st0 for v in (st0[key] if isinstance(st0[key], list) else [])):
         return None
+    if c.get("route") in LIBRARY_RECORDED and d >= 1:
+        why = _same_polynomials(c, calls, d, x, Q)
+        if why:
+            return why
     for i in range(1, len(calls)):
         a, ci = calls[i], c["calls"][i]
         if "error" in a:
@@ -912,6 +1225,8 @@ def oracle_poly(c, o):
         if ci["degree"] > d:
             continue
         al, n2 = st0.get("alpha", []), st0.get("norms2", [])
+        if len(al) < ci["degree"] or len(n2) < ci["degree"] + 1:
+            continue  # no recorded coefficients to replay by hand (the outputs were compared above where the library keeps the state)
         nulls_i = [v is None for v in ci["x"]]
         y = _arr([fl(v) for v in ci["x"] if v is not None])
         P = [numpy.ones(len(y))]
@@ -984,7 +1299,9 @@ LEVEL_TEXT = (
     "degree-k polynomials hence same span as the raw powers, NaN rows row-wise); exp/log inverse pairs and "
     "exp10 x = 10^x over the reals for the functions the model table names. The models are tied to the code by a "
     "differential correspondence on every run; the elementwise table is tied by exact evaluation of the live "
-    "TRANSFORMS entries at exactly representable points."
+    "TRANSFORMS entries at exactly representable points. That the state reaches the transform on follow-up data "
+    "(however the call is spelled, wherever it sits in the factor, through each public entry point) is tied by the "
+    "`ref` stream: recorded state and outputs of the library-managed history equal the model's explicit-state history."
 )
 LEVEL_NOTE = (
     "Partial: libm accuracy of exp/log/sqrt and IEEE rounding are observed (exact probes, 1e-12 / 1e-9 tolerances), "
